@@ -411,3 +411,49 @@ Theorem C18_oer_container_leftover_rejected : forall (t : ty) (bs : list Z) (n :
   oer_dec_open t bs = None.
 Proof. exact oer_open_leftover_rejected. Qed.
 Print Assumptions C18_oer_container_leftover_rejected.
+
+(* ---- round 5 (Rt/OpenTypeFrag.v): the loop of uper_open_type_put with its need_eom decision, contents of any length ---- *)
+From A1 Require Import Rt.Ext Rt.OpenTypeFrag Rt.OpenTypeFragProofs.
+
+Theorem C18_open_put_is_fragments : forall c : list Z, open_put_c c = open_type_spec c.
+Proof. exact open_put_c_is_spec. Qed.
+Print Assumptions C18_open_put_is_fragments.
+
+Theorem C18_open_put_is_counted : forall c : list Z, open_put_c c = counted (map byte_bits c).
+Proof. exact open_put_c_is_counted. Qed.
+Print Assumptions C18_open_put_is_counted.
+
+Theorem C18_uper_open_is_open_put : forall (t : ty) (v : val), uper_open t v =
+  match uper_encode false t v with Some bytes => Some (open_put_c bytes) | None => None end.
+Proof. exact uper_open_is_open_put. Qed.
+Print Assumptions C18_uper_open_is_open_put.
+
+Theorem C18_open_put_exact_multiple : forall (eom : eom_rule) (c : list Z) (m : Z), 1 <= m <= 4 -> zlen c = m * 16384 ->
+  open_put eom (S (length c)) c =
+  nbits 8 (192 + m) ++ bytes_bits c ++ (if eom 0 (m * 16384) true then nbits 8 0 else []).
+Proof. exact open_put_exact. Qed.
+Print Assumptions C18_open_put_exact_multiple.
+
+Theorem C18_eom_only_after_64k_short : forall (c : list Z) (m : Z), 1 <= m <= 3 -> zlen c = m * 16384 ->
+  open_put_c c = open_put_64k c ++ nbits 8 0.
+Proof. exact open_put_64k_short. Qed.
+Print Assumptions C18_eom_only_after_64k_short.
+
+Theorem C18_eom_only_after_64k_differs : forall (c : list Z) (m : Z), 1 <= m <= 3 -> zlen c = m * 16384 ->
+  open_put_64k c <> open_type_spec c.
+Proof. exact open_put_64k_differs. Qed.
+Print Assumptions C18_eom_only_after_64k_differs.
+
+Theorem C18_eom_only_after_64k_same_at_64k : forall c : list Z, zlen c = 65536 -> open_put_64k c = open_put_c c.
+Proof. exact open_put_64k_same_at_64k. Qed.
+Print Assumptions C18_eom_only_after_64k_same_at_64k.
+
+Theorem C18_open_put_reassembles : forall (c : list Z) (r : list bool), bytes_ok c ->
+  get_open_bytes (open_put_c c ++ r) = Some (c, r).
+Proof. exact open_put_c_reassembles. Qed.
+Print Assumptions C18_open_put_reassembles.
+
+Theorem C18_eom_only_after_64k_starves : forall (c : list Z) (m : Z), 1 <= m <= 3 -> zlen c = m * 16384 -> bytes_ok c ->
+  get_open_bytes (open_put_64k c) = None.
+Proof. exact open_put_64k_starves. Qed.
+Print Assumptions C18_eom_only_after_64k_starves.
